@@ -148,8 +148,9 @@ def _feedback(chk, pop):
     chk.require(len(eig) == 1, "POP kernel: eigen-solver call vanished")
     A = eig[0].args[0]
     e, at = A, sf.node_of(eig[0])
-    from .common import resolve_single
-    e, at = resolve_single(sf, e, at)
+    from .common import inline_locals
+    A_node = A
+    e = inline_locals(sf, A)  # named intermediate products (C1 = ..., C0 = ...) substituted back
     ops = _matmul_operands(e)
     ok = False
     herm = True
@@ -174,5 +175,5 @@ def _feedback(chk, pop):
                 herm = herm and cg
         ok = t0 and lead == "1:" and lag == ":-1" and inv and gram_ok and not t1
         herm = herm and c0
-    chk.check(ok, "FEEDBACK.form", solve, e, why="the feedback matrix must be (X[1:]^H X[:-1]) (X[:-1]^H X[:-1])^-1: lag-1 covariance times inverse lag-0 covariance")
-    chk.check(herm, "FEEDBACK.conj", solve, e, why="the covariances of complex PCs need conjugate transposes")
+    chk.check(ok, "FEEDBACK.form", solve, A_node, construct="feedback matrix handed to the eigen-solver", why="the feedback matrix must be (X[1:]^H X[:-1]) (X[:-1]^H X[:-1])^-1: lag-1 covariance times inverse lag-0 covariance")
+    chk.check(herm, "FEEDBACK.conj", solve, A_node, construct="feedback matrix: conjugate transposes", why="the covariances of complex PCs need conjugate transposes")
